@@ -222,6 +222,14 @@ func genC12(rc *RunCtx) (*C1, *c12Info, bool) {
 		sc.FaultGap = gapOf(t)
 	}
 	sc.Hooks = !t.Has("pos") && t.Chance(1, 4) // logging hooks installed: must make no difference
+	if sc.Kind == KRTU && !t.Has("pos") && t.Chance(1, 5) {
+		sc.ConfOneFunc = 1 + t.Choose(3) // the RTU constructor is handed a config that names parse functions (its own, or the CRC-less ones)
+	}
+	if sc.Kind == KSerial && !t.Has("pos") && len(sc.Chunks) > 0 && t.Chance(1, 6) {
+		// the port fails for good while handing over the last bytes it got (n > 0 together with an error of its own)
+		sc.Fault = FIOErr
+		sc.ErrWithData = true
+	}
 	return sc, info, true
 }
 
